@@ -165,7 +165,17 @@ def knobs_text(case):
     it = case.get("knobs_iterations")
     if it is None:
         it = 100 if ss_with_fixed_volume_gas(case) else 300
-    return "KNOBS\n -convergence_tolerance 1e-12\n -iterations %d" % int(it)
+    txt = "KNOBS\n -convergence_tolerance 1e-12\n -iterations %d" % int(it)
+    # Known finding (C02, replays/C02/known/trace-phase-inventory-rounded-after-1e6-mol-newton-excursion.json and
+    # carbon-inventory-rounded-after-1e7-mol-newton-excursion.json): with the default step sizes (100 / 10) one Newton
+    # step can move 1e6..1e7 mol into a pure phase or solid solution and back; the element's dissolved total is then the
+    # difference of two such numbers and returns short by their unit of rounding (1e-10..1e-9 mol, > 1e-6 of a trace
+    # inventory).  Which input does this cannot be told beforehand (about 1 case in 4000), so every generated input damps
+    # the Newton step with the documented options -step_size 10 / -pe_step_size 5 (what the engine's own first retry
+    # uses).  `knobs_default_step_size` in a case keeps the defaults (used only by known-finding replays).
+    if not case.get("knobs_default_step_size"):
+        txt += "\n -step_size 10\n -pe_step_size 5"
+    return txt
 
 
 # ---------------------------------------------------------------------------------------------- strategies
